@@ -289,7 +289,10 @@ class HTTP11Connection(ConnectionInterface):
 
     def has_expired(self) -> bool:
         now = time.monotonic()
-        keepalive_expired = self._expire_at is not None and now > self._expire_at
+        # Read the deadline once: with threads, a request starting on the
+        # connection clears it between a check and a second read.
+        expire_at = self._expire_at
+        keepalive_expired = expire_at is not None and now > expire_at
 
         # If the HTTP connection is idle but the socket is readable, then the
         # only valid state is that the socket is about to return b"", indicating
